@@ -119,6 +119,8 @@ class SdpSerialLink:
 class SdpHidLink:
     CMD_REPORT_SIZE = 16
     DATA_REPORT_SIZE = 1024
+    lenient = False   # True: reports may be shorter than the full size (never longer) - used for histories in which an
+                      # SDPS transfer re-negotiated the report size of the process before (C10 statement: "no larger than")
 
     def __init__(self, core: SdpCore):
         self.core = core
@@ -138,11 +140,11 @@ class SdpHidLink:
     def host_write(self, data: bytes) -> int:
         rid = data[0] if data else -1
         if rid == 1:
-            if len(data) != 1 + self.DATA_REPORT_SIZE or any(data[17:]):
+            if (len(data) != 1 + self.DATA_REPORT_SIZE and not (self.lenient and 17 <= len(data) <= 1 + self.DATA_REPORT_SIZE)) or any(data[17:]):
                 self.core.errors.append(f"command report of {len(data)} bytes / non-zero padding")
             self._emit(self.core.command(bytes(data[1:17])))
         elif rid == 2:
-            if len(data) != 1 + self.DATA_REPORT_SIZE:
+            if len(data) != 1 + self.DATA_REPORT_SIZE and not (self.lenient and 2 <= len(data) <= 1 + self.DATA_REPORT_SIZE):
                 self.core.errors.append(f"data report of {len(data)} bytes")
             if self.core.din is None:
                 self.core.errors.append("data report outside a data phase")
@@ -150,4 +152,70 @@ class SdpHidLink:
                 self._emit(self.core.data_in(bytes(data[1:])))
         else:
             self.core.errors.append(f"unknown report id {rid}")
+        return len(data)
+
+
+# ---------------------------------------------------------------------------------------------
+# SDPS (the "secure" serial downloader of i.MX28 / i.MX8 / i.MX9: one firmware-download transfer)
+#
+# Written from the protocol description: the host configures the HID report size of the ROM
+# (1024 or 1020 payload bytes).  ROMs with a command phase (i.MX28) first receive report 1 with a
+# 31-byte command block wrapper: `<I` signature "BLTC", `<I` tag, `<I` transfer length, `B` flags
+# (0 = host to device), 2 reserved bytes, then the 16-byte command descriptor: `B` command
+# (2 = firmware download), `>I` length, reserved.  The data follow in reports with id 2, every
+# report full size, the last one zero padded.  ROMs without a command phase receive the data
+# reports only (the container is self-describing).  Nothing is sent back.
+
+BLTC = 0x43544C42
+
+
+class SdpsDev:
+    def __init__(self, no_cmd: bool, pack_size: int):
+        self.no_cmd = no_cmd
+        self.pack_size = pack_size
+        self.cbw = None
+        self.data = bytearray()
+        self.reports: list[tuple] = []   # (report id, payload length)
+        self.errors: list[str] = []
+        self.fail_at = None              # (index of the host report, kind) - the USB stack refuses that report
+        self.n = 0
+
+    def host_write(self, data: bytes) -> int:
+        i = self.n
+        self.n += 1
+        if self.fail_at is not None and self.fail_at[0] == i:
+            kind = self.fail_at[1]
+            if kind == "raise":
+                raise OSError("HID write failed")
+            return -1 if kind == "neg" else max(0, len(data) - 1)   # nothing of a refused report reaches the ROM
+        if not data:
+            self.errors.append("empty report")
+            return 0
+        rid, payload = data[0], bytes(data[1:])
+        self.reports.append((rid, len(payload)))
+        if len(payload) > self.pack_size:
+            self.errors.append(f"report with {len(payload)} payload bytes, negotiated size {self.pack_size}")
+        if rid == 1:
+            if self.no_cmd:
+                self.errors.append("command report sent to a ROM without command phase")
+            elif self.cbw is not None or self.data:
+                self.errors.append("second command block / command after data")
+            else:
+                if len(payload) < 31:
+                    self.errors.append(f"command block of {len(payload)} bytes")
+                else:
+                    sig, tag, xfer, flags = struct.unpack_from("<3IB", payload, 0)
+                    cmd = payload[15]
+                    (belen,) = struct.unpack_from(">I", payload, 16)
+                    self.cbw = {"sig": sig, "tag": tag, "xfer": xfer, "flags": flags, "cmd": cmd, "belen": belen}
+                    if any(payload[31:]):
+                        self.errors.append("non-zero bytes behind the command block")
+        elif rid == 2:
+            if not self.no_cmd and self.cbw is None:
+                self.errors.append("data report before the command block")
+            if len(payload) != self.pack_size:
+                self.errors.append(f"data report with {len(payload)} payload bytes instead of {self.pack_size}")
+            self.data += payload
+        else:
+            self.errors.append(f"unknown report id {rid}")
         return len(data)
